@@ -836,6 +836,28 @@ fn exec_srv(t: &[&str], cx: &Ctx) -> Option<CaseOut> {
     Some(CaseOut { line, out, fails, nontrivial, stats })
 }
 
+/// `ssm <buf>` — `TSigner::should_sign_message` on the message the bytes decode to (header and
+/// questions only on the model side, so records are cut off first)
+fn exec_ssm(t: &[&str]) -> Option<CaseOut> {
+    let [_, buf] = t else { return None };
+    let buf = unhex(buf)?;
+    let line = format!("ssm {}", hex(&buf));
+    let out = match catch(|| {
+        let mut d = BinDecoder::new(&buf);
+        let h = hickory_proto::op::Header::read(&mut d).ok()?;
+        let qs = Message::read_queries(&mut d, h.counts.queries as usize).ok()?;
+        let mut m = Message::new(h.metadata.id, h.metadata.message_type, h.metadata.op_code);
+        m.add_queries(qs);
+        Some(sa().signer().unwrap().should_sign_message(&m))
+    }) {
+        Ok(Some(v)) => b(v).to_string(),
+        Ok(None) => "err".into(),
+        Err(p) => format!("panic {p}"),
+    };
+    let nontrivial = out == "1";
+    Some(CaseOut { line, out, fails: vec![], nontrivial, stats: vec!["ssm".into()] })
+}
+
 /// `bigxfr <extra records> <udp|tcp> <edns payload|0>` — implementation-vs-oracle only (`~`): a signed
 /// AXFR of a zone with many records; if the reply carries a MAC it must verify with the verifier
 /// the client kept, whatever the size limit did to the message.
@@ -917,6 +939,7 @@ fn exec(line: &str, rec: &mut Recorder, cx: &Ctx) {
         Some("vfy") => exec_vfy(&t),
         Some("srv") => exec_srv(&t, cx),
         Some("bigxfr") => exec_bigxfr(&t, cx),
+        Some("ssm") => exec_ssm(&t),
         _ => None,
     });
     match r {
@@ -1366,6 +1389,10 @@ pub fn run(o: &Opts, rec: &mut Recorder) {
             g.rec.stat(&format!("gen.mut.{}", tag.trim_end_matches(|c: char| c.is_ascii_digit())));
             g.run(cfg_line(true, "signed", &std_keys, T0, &mb, false));
             g.run(format!("tbs {} ~ 1 ?", hex(&mb)));
+            if tag.starts_with("bit") || tag.starts_with("count") {
+                let lim = mb.len().min(48);
+                g.run(format!("ssm {}", hex(&mb[..lim])));
+            }
             if g.rng.chance(1, 4) || tag.starts_with("tsig") || tag.starts_with("count") {
                 g.run(format!("vmb {} {} ~ 1 ?", signer.tok(false), hex(&mb)));
             }
